@@ -150,6 +150,56 @@ Theorem C14_stabs_exact : forall c ss (pre tail : list Z) sh,
 Proof. exact stabs_exact. Qed.
 Print Assumptions C14_stabs_exact.
 
+(* ---- the header fields that do not locate the bytes are free parameters.  Two section headers
+   with the same sh_offset and sh_size enumerate the same stabs on every image ... *)
+Theorem C14_stabs_header_free : forall c img sh sh',
+  rec_z sh "sh_offset" = rec_z sh' "sh_offset" -> rec_z sh "sh_size" = rec_z sh' "sh_size" ->
+  StabSection_iter_stabs c img sh = StabSection_iter_stabs c img sh'.
+Proof. exact stabs_header_free. Qed.
+Print Assumptions C14_stabs_header_free.
+
+(* ... so the result does not depend on sh_entsize: the table is its 12-byte records whatever the
+   header's entry size says (0, 12, 20, 1, 2^64-1, ...) *)
+Theorem C14_stabs_entsize_irrelevant : forall c img sh (e : Z),
+  StabSection_iter_stabs c img (("sh_entsize", VZ e) :: sh) = StabSection_iter_stabs c img sh.
+Proof. exact (fun c img sh e => stabs_field_irrelevant c img sh "sh_entsize" (VZ e) ltac:(discriminate) ltac:(discriminate)). Qed.
+Print Assumptions C14_stabs_entsize_irrelevant.
+
+(* file level: the image holds the encoded records and, anywhere, the encoded section header [h];
+   every field of [h] other than sh_offset / sh_size (sh_name, sh_type, sh_flags, sh_addr, sh_link,
+   sh_info, sh_addralign, sh_entsize) is universally quantified *)
+Theorem C14_stabs_file_exact : forall c ss (pre tail A R : list Z) h img,
+  forallb (wf_stab (c_le c)) ss = true -> wf_shdr (c_le c) (c_is64 c) h = true ->
+  sh_offset h = zlen pre -> sh_size h = zlen (encode_stabs (c_le c) ss) ->
+  img = pre ++ encode_stabs (c_le c) ss ++ tail ->
+  img = A ++ encode_shdr (c_le c) (c_is64 c) h ++ R ->
+  section_stabs_at c img (zlen A) = Ok (expected_stabs (c_le c) (zlen pre) ss, None).
+Proof. exact stabs_file_exact. Qed.
+Print Assumptions C14_stabs_file_exact.
+
+(* the same for notes: sh_addralign / p_align, sh_link, sh_info, sh_entsize, flags, addresses and
+   p_memsz of the two headers are free; the padding is the standard 4 bytes whatever they say *)
+Theorem C14_notes_header_free : forall c img sh sh' ph ph',
+  rec_z sh "sh_offset" = rec_z sh' "sh_offset" -> rec_z sh "sh_size" = rec_z sh' "sh_size" ->
+  rec_z ph "p_offset" = rec_z ph' "p_offset" -> rec_z ph "p_filesz" = rec_z ph' "p_filesz" ->
+  NoteSection_iter_notes c img sh = NoteSection_iter_notes c img sh' /\
+  NoteSegment_iter_notes c img ph = NoteSegment_iter_notes c img ph'.
+Proof. exact notes_header_free. Qed.
+Print Assumptions C14_notes_header_free.
+
+Theorem C14_notes_file_exact : forall c ns (pre tail A R A' R' : list Z) h p img,
+  wf_cfg c = true -> wf_notes (scfg_of c) ns = true ->
+  wf_shdr (c_le c) (c_is64 c) h = true -> wf_phdr (c_le c) (c_is64 c) p = true ->
+  sh_offset h = zlen pre -> sh_size h = zlen (encode_notes (scfg_of c) ns) ->
+  p_offset p = zlen pre -> p_filesz p = zlen (encode_notes (scfg_of c) ns) ->
+  img = pre ++ encode_notes (scfg_of c) ns ++ tail ->
+  img = A ++ encode_shdr (c_le c) (c_is64 c) h ++ R ->
+  img = A' ++ encode_phdr (c_le c) (c_is64 c) p ++ R' ->
+  section_notes_at c img (zlen A) = Ok (expected_notes (scfg_of c) (zlen pre) ns, None) /\
+  segment_notes_at c img (zlen A') = Ok (expected_notes (scfg_of c) (zlen pre) ns, None).
+Proof. exact notes_file_exact. Qed.
+Print Assumptions C14_notes_file_exact.
+
 (* ---- non-vacuity: the hypotheses are met by concrete non-trivial inputs, and the statements
    compute on them *)
 Definition ex_cfg : cfg := {| c_le := true; c_is64 := true; c_etype := "ET_DYN"; c_machine := "EM_X86_64" |}.
@@ -188,3 +238,18 @@ Example C14_ex_stabs :
   StabSection_iter_stabs ex_cfg ([0] ++ encode_stabs true ss ++ [0]) [("sh_offset", VZ 1); ("sh_size", VZ 24)]
   = (expected_stabs true 1 ss, None).
 Proof. vm_compute. split; reflexivity. Qed.
+
+(* the shape of test/testfiles_for_unittests/obj_stabs.elf: three records, sh_entsize 20 (and 1,
+   and 2^64-1), sh_link / sh_info / sh_addralign arbitrary; header after the data *)
+Example C14_ex_stabs_entsize :
+  let ss := [[VZ 1; VZ 0; VZ 0; VZ 2; VZ 33]; [VZ 13; VZ 0x95; VZ 0xc8; VZ 0x4072; VZ 0xdeadbeef];
+             [VZ 19; VZ 0x41; VZ 0x66; VZ 0xf9b1; VZ 0xcafebabe]] in
+  let h e := {| sh_name := 7; sh_type := 1; sh_flags := 0; sh_addr := 0; sh_offset := 2; sh_size := 36;
+                sh_link := 5; sh_info := 0xffff; sh_addralign := 4; sh_entsize := e |} in
+  let img e := [7; 7] ++ encode_stabs true ss ++ [9] ++ encode_shdr true true (h e) ++ [9; 9] in
+  forallb (wf_shdr true true) [h 20; h 1; h 0; h (2 ^ 64 - 1)] = true /\
+  section_stabs_at ex_cfg (img 20) 39 = Ok (expected_stabs true 2 ss, None) /\
+  section_stabs_at ex_cfg (img 1) 39 = Ok (expected_stabs true 2 ss, None) /\
+  section_stabs_at ex_cfg (img (2 ^ 64 - 1)) 39 = Ok (expected_stabs true 2 ss, None) /\
+  length (expected_stabs true 2 ss) = 3%nat.
+Proof. vm_compute. repeat split; reflexivity. Qed.
